@@ -280,7 +280,8 @@ class CallListerVisitor(ast.NodeVisitor):
             self.namespace[node.id] = Unknown(node)
 
     def visit_Attribute(self, node):
-        pass
+        if not isinstance(node.value, ast.Name):
+            self.visit(node.value)
 
     def has_hide_starargs(self, found, original):
         if found:
